@@ -534,3 +534,107 @@ fn c38_t_readpos_varint_after_skip() {
         }
     }
 }
+
+/// Model of a `BufReader` over a seekable source whose internal buffer holds
+/// `chunk` bytes: `fill_buf` exposes only what is left of the current
+/// chunk-aligned window, so a multi-byte value can straddle a refill (the
+/// situation of `BufReader<File>` at every 8 KiB boundary, which `Cursor`
+/// never shows). `read` behaves like `BufReader::read` (serves what is
+/// buffered, at most the request).
+struct Chunked<'a> {
+    buf: &'a [u8],
+    pos: usize,
+    chunk: usize,
+}
+impl Chunked<'_> {
+    fn window_end(&self) -> usize {
+        let end = (self.pos / self.chunk + 1) * self.chunk;
+        if end < self.buf.len() { end } else { self.buf.len() }
+    }
+}
+impl std::io::Read for Chunked<'_> {
+    fn read(&mut self, out: &mut [u8]) -> std::io::Result<usize> {
+        if self.pos >= self.buf.len() {
+            return Ok(0);
+        }
+        let avail = self.window_end() - self.pos;
+        let n = if out.len() < avail { out.len() } else { avail };
+        let mut i = 0;
+        while i < n {
+            out[i] = self.buf[self.pos + i];
+            i += 1;
+        }
+        self.pos += n;
+        Ok(n)
+    }
+}
+impl std::io::BufRead for Chunked<'_> {
+    fn fill_buf(&mut self) -> std::io::Result<&[u8]> {
+        if self.pos >= self.buf.len() {
+            return Ok(&[]);
+        }
+        Ok(&self.buf[self.pos..self.window_end()])
+    }
+    fn consume(&mut self, n: usize) {
+        self.pos += n;
+    }
+}
+impl std::io::Seek for Chunked<'_> {
+    fn seek(&mut self, to: std::io::SeekFrom) -> std::io::Result<u64> {
+        match to {
+            std::io::SeekFrom::Start(p) => self.pos = p as usize,
+            std::io::SeekFrom::End(d) => self.pos = (self.buf.len() as i64 + d) as usize,
+            std::io::SeekFrom::Current(d) => self.pos = (self.pos as i64 + d) as usize,
+        }
+        Ok(self.pos as u64)
+    }
+}
+impl super::value::Position for Chunked<'_> {
+    fn position(&self) -> u64 {
+        self.pos as u64
+    }
+}
+
+/// Fixed-width reads (`read_i32` / `read_i64`, wire types 5 and 1) through a
+/// reader that refills three bytes at a time, after a symbolic skip, over
+/// 0..=11 symbolic bytes: the value is the little-endian decoding of the next
+/// 4 / 8 bytes wherever the refill boundaries fall, too few remaining bytes is
+/// an error, and nothing panics or reads outside the buffer.
+macro_rules! read_fixed_chunked {
+    ($name:ident, $ty:ty, $width:expr, $read:ident) => {
+        #[kani::proof]
+        #[kani::unwind(14)]
+        fn $name() {
+            let bytes: [u8; 11] = kani::any();
+            let n: usize = kani::any();
+            kani::assume(n <= 11);
+            let mut r = ValueReader::new(Chunked { buf: &bytes[..n], pos: 0, chunk: 3 });
+            let pre: usize = kani::any();
+            kani::assume(pre <= 3 && pre <= n);
+            match r.skip(pre) {
+                Ok(()) => {}
+                Err(e) => std::mem::forget(e),
+            }
+            match r.$read() {
+                Ok(v) => {
+                    kani::cover!(pre == 1, "value straddles refills");
+                    assert!(n - pre >= $width, "fixed-width value read from too few bytes");
+                    let mut le = [0u8; $width];
+                    let mut i = 0;
+                    while i < $width {
+                        le[i] = bytes[pre + i];
+                        i += 1;
+                    }
+                    assert!(v == <$ty>::from_le_bytes(le), "fixed-width value differs from its little-endian bytes");
+                    assert!(r.position() == (pre + $width) as u64);
+                }
+                Err(e) => {
+                    assert!(n - pre < $width, "fixed-width value rejected although enough bytes remain");
+                    std::mem::forget(e);
+                }
+            }
+        }
+    };
+}
+read_fixed_chunked!(c38_q_read_i32_refill3, i32, 4, read_i32);
+read_fixed_chunked!(c38_q_read_i64_refill3, i64, 8, read_i64);
